@@ -26,6 +26,7 @@ const (
 	Blanks                        // Arg 0: TAB separators; 1: two spaces; 2: trailing blanks; 3: mixed " \t"
 	Unquote                       // Arg j: j-th Str token written without quotes (only where legal)
 	SwapTTLClass                  // class/TTL in the other order (only when both are present)
+	HeaderParen                   // "(" directly behind the owner, so that TTL, class and type stand inside the parentheses: Arg 0 on one line; 1 a line break behind each of them; 2 a comment and a line break; 3 a comment glued onto each of them and a line break
 	nDevKinds
 )
 
@@ -38,6 +39,7 @@ const (
 	ParenEachCol0            // a line break after every remaining token, continuation lines in column 0
 	ParenCloseOwnLine        // "(\n" + blank ... "\n)" closing parenthesis on its own line
 	ParenEachComment         // a comment and a line break after every remaining token, indented
+	ParenEachGlued           // the same with the comment glued onto the token (no blank before the semicolon)
 	NParenVariants
 )
 
@@ -48,7 +50,7 @@ type Dev struct {
 }
 
 func (d Dev) String() string {
-	names := [...]string{"lower-directive", "lower-class", "lower-type", "blank-before", "blank-after", "comment", "paren", "blanks", "unquote", "swap-ttl-class"}
+	names := [...]string{"lower-directive", "lower-class", "lower-type", "blank-before", "blank-after", "comment", "paren", "blanks", "unquote", "swap-ttl-class", "header-paren"}
 	if d.Kind == Paren {
 		return fmt.Sprintf("L%d:paren(after %d, variant %d)", d.Line, d.Arg/NParenVariants, d.Arg%NParenVariants)
 	}
@@ -123,6 +125,9 @@ func Deviations(lines []Line) []Dev {
 			if l.Class != "" && l.TTL != "" {
 				add(SwapTTLClass, 0)
 			}
+		}
+		if l.Kind == Record && l.HasOwner {
+			add(HeaderParen, 0, 1, 2, 3)
 		}
 		if l.Kind == Record {
 			for pos := 0; pos <= len(l.RData); pos++ {
@@ -281,7 +286,27 @@ func Render(lines []Line, st Style) (text string, ok bool) {
 		if have[BlankBefore] {
 			out.WriteString(blankLine(arg[BlankBefore]))
 		}
-		out.WriteString(strings.Join(f, sep))
+		headerParen := false
+		if have[HeaderParen] {
+			if l.Kind != Record || !l.HasOwner || have[Paren] {
+				return "", false
+			}
+			headerParen = true
+			out.WriteString(f[0] + sep + "(")
+			for _, t := range f[1:] {
+				out.WriteString(sep + t)
+				switch arg[HeaderParen] {
+				case 1:
+					out.WriteString("\n")
+				case 2:
+					out.WriteString(sep + "; c ) (\n")
+				case 3:
+					out.WriteString(";c ) (\n")
+				}
+			}
+		} else {
+			out.WriteString(strings.Join(f, sep))
+		}
 		// RDATA, possibly parenthesised
 		if l.Kind == Record {
 			open, variant := -1, 0
@@ -291,6 +316,7 @@ func Render(lines []Line, st Style) (text string, ok bool) {
 					return "", false
 				}
 			}
+			justOpened := false
 			indent := sep
 			if variant == ParenCol0 || variant == ParenEachCol0 {
 				indent = ""
@@ -299,12 +325,17 @@ func Render(lines []Line, st Style) (text string, ok bool) {
 				if variant == ParenComment || variant == ParenEachComment {
 					out.WriteString(sep + "; c ) (")
 				}
+				if variant == ParenEachGlued && !justOpened {
+					out.WriteString(";c ) (")
+				}
+				justOpened = false
 				out.WriteString("\n" + indent)
 			}
 			inParen := false
 			for k := 0; k <= len(rd); k++ {
 				if k == open {
 					out.WriteString(sep + "(")
+					justOpened = true
 					brk()
 					inParen = true
 					if k < len(rd) {
@@ -315,7 +346,7 @@ func Render(lines []Line, st Style) (text string, ok bool) {
 				if k == len(rd) {
 					break
 				}
-				each := variant == ParenEachIndent || variant == ParenEachCol0 || variant == ParenEachComment
+				each := variant == ParenEachIndent || variant == ParenEachCol0 || variant == ParenEachComment || variant == ParenEachGlued
 				if inParen && each {
 					brk()
 					out.WriteString(rd[k])
@@ -329,6 +360,9 @@ func Render(lines []Line, st Style) (text string, ok bool) {
 				} else {
 					out.WriteString(sep + ")")
 				}
+			}
+			if headerParen {
+				out.WriteString(sep + ")")
 			}
 		}
 		if have[Blanks] && arg[Blanks] == 2 {
